@@ -544,6 +544,17 @@ fn run_bfs(r: &Arc<Report>, label: &str, zone_names: &[&str], k: usize, bound: u
     if !never_ok.is_empty() {
         r.note(format!("{}: actions that never produced a value: {}", label, never_ok.join(", ")));
     }
+    let mut fam: std::collections::BTreeMap<String, (u64, u64)> = Default::default();
+    for (i, a) in sh.acts.iter().enumerate() {
+        let f = a.name.split(|c: char| c == '(' || c == '.').next().unwrap_or("").to_string();
+        let e = fam.entry(f).or_insert((0, 0));
+        e.0 += sh.per_action_ok[i].load(Relaxed);
+        e.1 += sh.per_action_err[i].load(Relaxed);
+    }
+    for (f, (ok, err)) in fam {
+        r.outcome(&format!("{}:{}:ok", label, f), ok);
+        r.outcome(&format!("{}:{}:err", label, f), err);
+    }
     let never_err = sh.acts.iter().enumerate().filter(|(i, _)| sh.per_action_err[*i].load(Relaxed) == 0).count();
     r.count(&format!("{}:actions_that_never_failed", label), never_err as u64);
     r.require(never_ok.is_empty(), "every action produced a value somewhere");
@@ -656,6 +667,11 @@ fn finish(r: Arc<Report>) -> ! {
     }
 }
 
+/// development knob: C13_K overrides the number of transitions per zone
+fn envk(default: usize) -> usize {
+    std::env::var("C13_K").ok().and_then(|v| v.parse().ok()).unwrap_or(default)
+}
+
 fn main() {
     let r = Arc::new(Report::from_args("C13"));
     if let Some(case) = r.only_case.clone() {
@@ -664,19 +680,19 @@ fn main() {
     if r.quick() {
         // depth 3, seven named zones + a fixed offset, full action set
         r.section("bfs", || {
-            let st = run_bfs(&r, "quick", QUICK_ZONES, 2, 3, false, 120_000_000, 100);
+            let st = run_bfs(&r, "quick", QUICK_ZONES, envk(30), 3, false, 120_000_000, 100);
             r.require(st.unique_values > 10_000 && st.per_depth[3] > 0, "the search reached depth 3 with > 10^4 distinct values");
             let _ = (st.unique_states, st.max_depth, st.wall);
         });
     } else {
         // (a) wide: every representative zone, full action set, depth 3
         r.section("bfs-wide", || {
-            let a = run_bfs(&r, "wide", REP, 3, 3, false, 400_000_000, 1500);
+            let a = run_bfs(&r, "wide", REP, envk(6), 3, false, 400_000_000, 1500);
             r.require(a.per_depth[3] > 0, "the wide search reached its depth bound");
         });
         // (b) deep: the quick zones, core action subset, depth 5
         r.section("bfs-deep", || {
-            let b = run_bfs(&r, "deep", QUICK_ZONES, 2, 5, true, 400_000_000, 1500);
+            let b = run_bfs(&r, "deep", QUICK_ZONES, envk(2), 5, true, 400_000_000, 1500);
             r.require(b.per_depth[5] > 0, "the deep search reached its depth bound");
         });
     }
